@@ -491,7 +491,7 @@ class Check:
                 "evaluations": evaluations, "distinct_nontrivial": distinct,
                 "rule": " || ".join(rules),
                 "samples": (samples[:12] + list(info.get("samples", []))[:12]) or ["(no sampled cases: proof-only run)"],
-                "exhaustive": bool(exhaustive),
+                "exhaustive": bool(exhaustive) or bool(info.get("exhaustive")),
                 "input_distribution": hist, "model_branch_tags": tags,
                 "correspondence": [{"family": fr["family"], "lines": fr.get("cmp", {}).get("lines"),
                                     "mismatches": fr.get("cmp", {}).get("mismatches"),
